@@ -105,6 +105,86 @@ def file_chunks(f):
     return acc, count
 
 
+def scaled_check(ctx, nptdms, data, stats, graph=None):
+    """one file with a channel /'g'/'c' carrying NI_Scale properties: all access paths against the first eager [:]"""
+    import io
+    rnd = ctx.rnd
+    info = dict(kind="scaled", file=data.hex(), graph=str(graph)[:300])
+    vbz = lambda x: canon.value_bytes(np.asarray(x))  # noqa
+    try:
+        che = nptdms.TdmsFile.read(io.BytesIO(data), memmap_dir=None)["g"]["c"]
+        raw0 = vbz(che.raw_data)
+        fa = np.array(che[:])
+        first = vbz(fa)
+    except Exception:
+        return []        # a sensor formula that raises on these numbers: C13/C17's matter
+    n = len(che)
+    stats["scaled_files"] = stats.get("scaled_files", 0) + 1
+    a, b = sorted(rnd.sample(range(n + 1), 2)) if n >= 1 else (0, 0)
+    fl = nptdms.TdmsFile.open(io.BytesIO(data))
+    chl = fl["g"]["c"]
+
+    def chunked():
+        out = []
+        for c in list(chl.data_chunks()):
+            head = c[0] if len(c) else None     # noqa: a chunk indexed before it is sliced
+            out.append(np.asarray(c[:]))
+        return np.concatenate(out) if out else np.zeros(0)
+    win = vbz(fa[a:b])
+    seq = [("eager [...]", lambda: che[...], first), ("eager read_data()", lambda: che.read_data(), first), ("eager .data", lambda: che.data, first),
+           ("eager iteration", lambda: np.array(list(che)), first), ("eager [i]", lambda: np.array([che[k] for k in range(n)]), first),
+           ("eager read_data(%d,%d)" % (a, b - a), lambda: che.read_data(a, b - a), win), ("eager [:] again", lambda: che[:], first),
+           ("eager raw_data", lambda: che.raw_data, raw0), ("eager read_data(scaled=False)", lambda: che.read_data(scaled=False), raw0),
+           ("lazy [:]", lambda: chl[:], first), ("lazy chunks", chunked, first), ("lazy [i]", lambda: np.array([chl[k] for k in range(n)]), first),
+           ("lazy read_data(%d,%d)" % (a, b - a), lambda: chl.read_data(a, b - a), win), ("lazy [:] again", lambda: chl[:], first),
+           ("lazy read_data(scaled=False)", lambda: chl.read_data(scaled=False), raw0)]
+    vio = []
+    for name, fn, want in seq:
+        stats["paths"] += 1
+        r = cl.call(fn)
+        if r[0] != "ok":
+            vio.append(Violation("scaled channel: %s raised %s although [:] returned" % (name, r[2]), dict(info, access=name)))
+            break
+        got = np.asarray(r[1])
+        if want is not raw0 and got.dtype != fa.dtype and got.size == 0:
+            got = got.astype(fa.dtype)
+        if vbz(got) != want:
+            vio.append(Violation("scaled channel: %s gives %s, the first eager [:] gave %s" % (name, [repr(x) for x in got.tolist()[:6]], [repr(x) for x in fa.tolist()[:6]]),
+                                 dict(info, access=name)))
+            break
+    fl.close()
+    return vio
+
+
+def scaled_files(ctx, model, count):
+    """one-channel files /'g'/'c' WITH NI_Scale properties (structural and sensor scales, every numeric raw type, every third float64)"""
+    import gen_scaling as gs
+    rnd = ctx.rnd
+    f8 = [t for t in gs.NUMERIC if gs.NUMERIC[t][1] == "f8"][0]
+    for i in range(count):
+        props, graph = gs.draw_graph(rnd, types=(gs.STRUCTURAL + list(gs.SENSORS)) if i % 2 else list(gs.SENSORS), with_noop=rnd.random() < 0.2)
+        ty = rnd.choice(list(gs.NUMERIC)) if i % 3 else f8
+        n = rnd.choice([1, 2, 3, 6])
+        vals, packed = gs.raw_values(rnd, ty, n)
+        cut = rnd.randint(0, n)
+        segs = gs.one_channel_file(ty, [packed[:cut], packed[cut:]] if rnd.random() < 0.5 else [packed], props, [], [], big=rnd.random() < 0.3)
+        e = model.ask(gen_files.to_line(segs))
+        if e.get("ok") and e.get("wf"):
+            yield bytes.fromhex(e["file"]), graph
+
+
+def scaled_pass(ctx, model, nptdms, stats, count):
+    """Channels WITH NI_Scale properties: on one eagerly read object every scaled access path, one after the other, gives the bytes
+    of the first `[:]`; the unscaled paths give the raw bytes; the lazily opened file gives the same through [:], windows, chunk
+    streams (a chunk indexed twice) and integer indexing."""
+    vio = []
+    for data, graph in scaled_files(ctx, model, count):
+        vio += scaled_check(ctx, nptdms, data, stats, graph)
+        if len(vio) >= 3:
+            break
+    return vio
+
+
 def check_file(ctx, model, nptdms, data, tmpdir, stats):
     dis, vio = [], []
     ref_r, _ = canon.real_read(data, nptdms)
@@ -214,6 +294,7 @@ def run(ctx):
     fs = FileStream(ctx, model, ctx.n(250, 8000), max_n=4)
     disagreements, violations, samples = [], [], []
     nontrivial = 0
+    violations += scaled_pass(ctx, model, nptdms, stats, ctx.n(120, 1500))
     tmpdir = tempfile.mkdtemp(prefix="nptdms_verif_c03_")
     try:
         for i, segs, e, data, feats, new in fs:
@@ -235,7 +316,7 @@ def run(ctx):
                 coverage=dict(evaluations=stats["paths"] + stats["model_ops"], distinct_nontrivial=nontrivial,
                               rule=RULE_FILES + "; per file x {read, open} x {raw_timestamps} x {memmap_dir} x {stream, path} (quick: 4 of the 8 configurations): "
                                    "[:], [...], read_data(), .data, iteration, integer indexing, read_data(scaled=False), raw_data, concatenated channel and file "
-                                   "chunk streams with offset = running count; non-trivial = distinct files with data that are multi-segment, multi-chunk or interleaved",
+                                   "chunk streams with offset = running count; first a pass over one-channel files WITH NI_Scale properties (structural and sensor scales, all numeric raw types): every scaled access path of one eager object in sequence, and of the lazily opened file, byte-equal to the first eager [:], unscaled paths byte-equal to the raw data; non-trivial = distinct files with data that are multi-segment, multi-chunk or interleaved",
                               samples=samples, files=fs.drawn, counts=stats, feature_counts=dict(sorted(fs.feats.items()))))
 
 
@@ -245,6 +326,9 @@ def search(ctx, broken, disagreements):
         return []
     model = ctx.get_model()
     stats = dict(paths=0, model_ops=0)
+    v = scaled_pass(ctx, model, nptdms, stats, ctx.n(200, 1500))
+    if v:
+        return v[:1]
     tmpdir = tempfile.mkdtemp(prefix="nptdms_verif_c03_")
     try:
         for i, segs, e, data, feats, new in FileStream(ctx, model, ctx.n(500, 3000), max_n=4):
@@ -263,7 +347,12 @@ def replay(ctx, path):
     tmpdir = tempfile.mkdtemp(prefix="nptdms_verif_c03_")
     ctx.tier = "thorough"
     try:
-        _, v = check_file(ctx, None, ctx.nptdms(), bytes.fromhex(rp["file"]), tmpdir, dict(paths=0, model_ops=0))
+        if rp.get("kind") == "scaled":
+            v = []
+            for _ in range(20):
+                v = v or scaled_check(ctx, ctx.nptdms(), bytes.fromhex(rp["file"]), dict(paths=0, model_ops=0))
+        else:
+            _, v = check_file(ctx, None, ctx.nptdms(), bytes.fromhex(rp["file"]), tmpdir, dict(paths=0, model_ops=0))
     finally:
         shutil.rmtree(tmpdir, ignore_errors=True)
     print("replay: %s" % ([x.what for x in v[:3]] or "property holds on this file"))
@@ -275,6 +364,8 @@ def corpus(ctx, entry):
     old = ctx.tier
     ctx.tier = "thorough"
     try:
+        if entry["replay"].get("kind") == "scaled":
+            return [], scaled_check(ctx, ctx.nptdms(), bytes.fromhex(entry["replay"]["file"]), dict(paths=0, model_ops=0))
         return check_file(ctx, ctx.get_model() if ctx.build_ok else None, ctx.nptdms(), bytes.fromhex(entry["replay"]["file"]), tmpdir, dict(paths=0, model_ops=0))
     finally:
         ctx.tier = old
